@@ -4,6 +4,8 @@
             Z null | T | F | S<hex> string | N<hex> number text | L<k> v1 … vk | M<k> K<hex> v1 … K<hex> vk
           (bare `S`/`N`/`K` = empty text)
     out:  `<tagval-hex>` | `err` | `panic` | `opaque` | `hang`
+          `T <tagtext-hex> <cfg>`  the whole text of the tag (value part and arguments): NewProperty cuts the arguments off
+    out:  `<tagstr-hex> <outcome as above>` | `panic`
 -/
 import Ioc.Placeholder
 namespace Driver.Placeholder
@@ -100,6 +102,13 @@ def handleH (toks : List String) : String :=
 def handle (line : String) : String :=
   match line.splitOn " " with
   | "H" :: toks => handleH toks
+  | "T" :: th :: toks =>
+    match fromHex th, parseVal (2 * toks.length + 2) toks with
+    | some s, some (.map cfg, []) =>
+      match processText cfg s with
+      | none => "panic"
+      | some (v, r) => toHex v ++ " " ++ showRes r
+    | _, _ => "bad-line"
   | th :: toks =>
     match fromHex th, parseVal (2 * toks.length + 2) toks with
     | some s, some (.map cfg, []) => showRes (process cfg s)
